@@ -43,6 +43,8 @@ typedef struct {
 	const unsigned char *rbase;
 } Ep;
 static Ep eps[NEP]; static int cur_ep = 0, pending_ep = 0;
+static int interactive = 0;                 /* blocking mode: a recv() with nothing to deliver asks the script what the server does */
+static void ask_script(const char *what, int ep);
 static time_t vclock = 1600000000;
 #define EPOF(fd) (&eps[((fd) - FD_BASE) / FD_EP])
 #define EPNO(fd) (((fd) - FD_BASE) / FD_EP)
@@ -92,6 +94,7 @@ ssize_t __wrap_recv(int fd, void *buf, size_t len, int flags) { Ep *e = EPOF(fd)
 	if (e->rbase == NULL || (const unsigned char *)buf < e->rbase) e->rbase = buf;
 	off = (long)((const unsigned char *)buf - e->rbase);
 	if (e->chunk_i < e->nchunks) { long c = e->chunks[e->chunk_i++]; if (c == 0) { printf("E recv ep=%d c=%d off=%ld len=%zu ret=EWOULDBLOCK\n", EPNO(fd), CNO(fd), off, len); errno = EWOULDBLOCK; return -1; } if ((size_t)c < n) n = (size_t)c; }
+	if (e->s2c_len == 0 && interactive && !e->peer_closed && !e->peer_reset) ask_script("recv", EPNO(fd));
 	if (e->s2c_len == 0) {
 		if (e->peer_reset) { printf("E recv ep=%d c=%d off=%ld len=%zu ret=ECONNRESET\n", EPNO(fd), CNO(fd), off, len); errno = ECONNRESET; return -1; }
 		if (e->peer_closed) { printf("E recv ep=%d c=%d off=%ld len=%zu ret=0\n", EPNO(fd), CNO(fd), off, len); return 0; }
@@ -110,13 +113,48 @@ ssize_t __wrap_send(int fd, const void *buf, size_t len, int flags) { Ep *e = EP
 	printf("E send ep=%d c=%d len=%zu ret=%zu data=", EPNO(fd), CNO(fd), len, n); hx_print(buf, n); printf("\n");
 	return (ssize_t)n; }
 
+/* environment commands (what the scripted servers / clock do); shared by the main loop and by ask_script() */
+static int env_cmd(char **tok, int n) {
+	int i;
+	if (!strcmp(tok[0], "S2C")) {
+		size_t l; unsigned char *b = hx_dec(tok[1], &l);
+		Ep *e = &eps[cur_ep];
+		if (e->s2c_len + l > e->s2c_cap) { e->s2c_cap = (e->s2c_len + l) * 2 + 64; e->s2c = realloc(e->s2c, e->s2c_cap); }
+		memcpy(e->s2c + e->s2c_len, b, l); e->s2c_len += l; free(b);
+	} else if (!strcmp(tok[0], "CHUNKS")) { Ep *e = &eps[cur_ep]; e->nchunks = e->chunk_i = 0; for (i = 1; i < n && e->nchunks < 4096; i++) e->chunks[e->nchunks++] = atol(tok[i]);
+	} else if (!strcmp(tok[0], "SENDCAPS")) { Ep *e = &eps[cur_ep]; e->ncaps = e->cap_i = 0; for (i = 1; i < n && e->ncaps < 4096; i++) e->sendcaps[e->ncaps++] = atol(tok[i]);
+	} else if (!strcmp(tok[0], "POLL")) { eps[cur_ep].poll_mode = !strcmp(tok[1], "ready") ? P_READY : !strcmp(tok[1], "notready") ? P_NOTREADY : !strcmp(tok[1], "hup") ? P_HUP : !strcmp(tok[1], "noout") ? P_NOOUT : P_ERR;
+	} else if (!strcmp(tok[0], "PEERCLOSE")) { eps[cur_ep].peer_closed = 1;
+	} else if (!strcmp(tok[0], "PEERRESET")) { eps[cur_ep].peer_reset = 1;
+	} else if (!strcmp(tok[0], "TICK")) { vclock += atol(tok[1]);
+	} else if (!strcmp(tok[0], "CONNECT")) { eps[cur_ep].connect_mode = !strcmp(tok[1], "ok") ? 1 : !strcmp(tok[1], "refused") ? 2 : 0;
+	} else if (!strcmp(tok[0], "GAI")) { eps[cur_ep].gai_fail = !strcmp(tok[1], "fail");
+	} else if (!strcmp(tok[0], "EP")) { cur_ep = atoi(tok[1]) % NEP;
+	} else return 0;
+	return 1;
+}
+static void ask_script(const char *what, int ep) {
+	char *line = NULL; size_t cap = 0; char **tok = malloc(sizeof(char *) * 5000);
+	printf("Q %s ep=%d\n.\n", what, ep); fflush(stdout);
+	while (getline(&line, &cap, stdin) > 0) {
+		int n;
+		line[strcspn(line, "\n")] = 0;
+		n = hx_split(line, tok, 5000);
+		if (n == 0) continue;
+		if (!strcmp(tok[0], "GO")) break;
+		if (!env_cmd(tok, n)) fprintf(stderr, "only environment commands are allowed while a call is blocked: %s\n", tok[0]);
+		printf(".\n"); fflush(stdout);
+	}
+	free(line); free(tok);
+}
+
 /* ---------------------------------------------------------------- service level */
 #define MAXH 4096
 static KSI_CTX *ctx; static KSI_AsyncService *as; static KSI_AsyncHandle *held[MAXH];
 static KSI_AsyncService *svc[8]; static int nsvc = 0;
 static KSI_AsyncClient *tc; static int owned[MAXH]; /* held[i] is owned by the caller (bare TCP mode) or borrowed from the service */
 
-static void reset_net(void) { int k; for (k = 0; k < NEP; k++) { free(eps[k].s2c); memset(&eps[k], 0, sizeof(Ep)); } cur_ep = pending_ep = 0; vclock = 1600000000; }
+static void reset_net(void) { int k; interactive = 0; for (k = 0; k < NEP; k++) { free(eps[k].s2c); memset(&eps[k], 0, sizeof(Ep)); } cur_ep = pending_ep = 0; vclock = 1600000000; }
 static void free_all(void) { int i; nsvc = 0; memset(svc, 0, sizeof(svc)); for (i = 0; i < MAXH; i++) { if (owned[i]) KSI_AsyncHandle_free(held[i]); held[i] = NULL; owned[i] = 0; } KSI_AsyncService_free(as); as = NULL; KSI_AsyncClient_free(tc); tc = NULL; KSI_CTX_free(ctx); ctx = NULL; }
 
 /* sub-service calls made by the HA service (net_ha.o -> net_async.o) are interposed too: they are the linearization points of C15 */
@@ -195,6 +233,53 @@ int main(void) {
 			KSI_AsyncService_setOption(as, KSI_ASYNC_OPT_MAX_REQUEST_COUNT, (void *)(size_t)atol(tok[4]));
 			KSI_AsyncService_setOption(as, KSI_ASYNC_OPT_CON_TIMEOUT, (void *)(size_t)atol(tok[5]));
 			printf("R new rc=%d\n", rc);
+		} else if (!strcmp(tok[0], "BNEW")) {
+			/* blocking services: aggregator = endpoint 0, extender = endpoint 1; BNEW <aggrHmacAlg> <extHmacAlg> */
+			int rc, k; free_all(); reset_net(); interactive = 1;
+			for (k = 0; k < NEP; k++) eps[k].connect_mode = 1;      /* blocking sockets: connect() succeeds unless told otherwise */
+			KSI_CTX_new(&ctx);
+			rc = KSI_CTX_setAggregator(ctx, "ksi+tcp://h0.example:1", "anon", "anon");
+			if (rc == KSI_OK) rc = KSI_CTX_setExtender(ctx, "ksi+tcp://h1.example:1", "anon", "anon");
+			if (n > 1 && rc == KSI_OK) rc = KSI_CTX_setAggregatorHmacAlgorithm(ctx, (size_t)atoi(tok[1]));
+			if (n > 2 && rc == KSI_OK) rc = KSI_CTX_setExtenderHmacAlgorithm(ctx, (size_t)atoi(tok[2]));
+			printf("R bnew rc=%d\n", rc);
+		} else if (!strcmp(tok[0], "SIGN") || !strcmp(tok[0], "CREATE")) {
+			size_t hl; unsigned char *hb = hx_dec(tok[1], &hl); KSI_DataHash *hsh = NULL; KSI_Signature *sig = NULL; int rc;
+			rc = KSI_DataHash_fromImprint(ctx, hb, hl, &hsh); free(hb);
+			if (rc == KSI_OK) rc = !strcmp(tok[0], "SIGN") ? KSI_Signature_signAggregated(ctx, hsh, (KSI_uint64_t)strtoull(tok[2], NULL, 10), &sig) : KSI_createSignature(ctx, hsh, &sig);
+			printf("R sign rc=0x%x", rc);
+			if (rc == KSI_OK && sig != NULL) { unsigned char *ser = NULL; size_t sl = 0; KSI_DataHash *in = NULL;
+				if (KSI_Signature_serialize(sig, &ser, &sl) == KSI_OK) { printf(" sig="); hx_print(ser, sl); } KSI_free(ser);
+				if (KSI_Signature_getDocumentHash(sig, &in) == KSI_OK) { const unsigned char *imp; size_t il; KSI_DataHash_getImprint(in, &imp, &il); printf(" sighash="); hx_print(imp, il); } }
+			printf("\n");
+			KSI_Signature_free(sig); KSI_DataHash_free(hsh);
+		} else if (!strcmp(tok[0], "EXTEND")) {
+			/* EXTEND <sigHex> <toTime|head|pub:<time>:<imprintHex>> */
+			size_t sl; unsigned char *sb = hx_dec(tok[1], &sl); KSI_Signature *sig = NULL, *ext = NULL; int rc; unsigned char *before = NULL, *after = NULL; size_t bl = 0, al = 0;
+			rc = KSI_Signature_parseWithPolicy(ctx, sb, sl, KSI_VERIFICATION_POLICY_EMPTY, NULL, &sig); free(sb);
+			if (rc != KSI_OK) { printf("R extend parse=0x%x\n", rc); }
+			else {
+				KSI_Signature_serialize(sig, &before, &bl);
+				if (!strncmp(tok[2], "pub:", 4)) {
+					KSI_PublicationRecord *pr = NULL; KSI_PublicationData *pd = NULL; KSI_Integer *t = NULL; KSI_DataHash *h = NULL; size_t il; unsigned char *ib;
+					char *c2 = strchr(tok[2] + 4, ':'); *c2++ = 0; ib = hx_dec(c2, &il);
+					KSI_PublicationRecord_new(ctx, &pr); KSI_PublicationData_new(ctx, &pd); KSI_Integer_new(ctx, strtoull(tok[2] + 4, NULL, 10), &t);
+					rc = KSI_DataHash_fromImprint(ctx, ib, il, &h); free(ib);
+					KSI_PublicationData_setTime(pd, t); KSI_PublicationData_setImprint(pd, h); KSI_PublicationRecord_setPublishedData(pr, pd);
+					if (rc == KSI_OK) rc = KSI_Signature_extend(sig, ctx, pr, &ext);
+					KSI_PublicationRecord_free(pr);
+				} else {
+					KSI_Integer *to = NULL;
+					if (strcmp(tok[2], "head")) KSI_Integer_new(ctx, strtoull(tok[2], NULL, 10), &to);
+					rc = KSI_Signature_extendTo(sig, ctx, to, &ext);
+					KSI_Integer_free(to);
+				}
+				KSI_Signature_serialize(sig, &after, &al);
+				printf("R extend rc=0x%x src=%s", rc, (al == bl && before && after && memcmp(before, after, al) == 0) ? "same" : "diff");
+				if (rc == KSI_OK && ext != NULL) { unsigned char *ser = NULL; size_t el = 0; if (KSI_Signature_serialize(ext, &ser, &el) == KSI_OK) { printf(" ext="); hx_print(ser, el); } KSI_free(ser); }
+				printf("\n");
+			}
+			KSI_free(before); KSI_free(after); KSI_Signature_free(ext); KSI_Signature_free(sig);
 		} else if (!strcmp(tok[0], "HANEW")) {
 			int rc, k, nep = atoi(tok[1]);
 			free_all(); reset_net();
@@ -232,20 +317,7 @@ int main(void) {
 			printf("R states");
 			for (i = 0; i < MAXH; i++) if (held[i]) { int st = -1, err = 0; KSI_AsyncHandle_getState(held[i], &st); KSI_AsyncHandle_getError(held[i], &err); printf(" %d:%d:0x%x", i, st, err); }
 			printf("\n");
-		} else if (!strcmp(tok[0], "S2C")) {
-			size_t l; unsigned char *b = hx_dec(tok[1], &l);
-			Ep *e = &eps[cur_ep];
-			if (e->s2c_len + l > e->s2c_cap) { e->s2c_cap = (e->s2c_len + l) * 2 + 64; e->s2c = realloc(e->s2c, e->s2c_cap); }
-			memcpy(e->s2c + e->s2c_len, b, l); e->s2c_len += l; free(b);
-		} else if (!strcmp(tok[0], "CHUNKS")) { Ep *e = &eps[cur_ep]; e->nchunks = e->chunk_i = 0; for (i = 1; i < n && e->nchunks < 4096; i++) e->chunks[e->nchunks++] = atol(tok[i]);
-		} else if (!strcmp(tok[0], "SENDCAPS")) { Ep *e = &eps[cur_ep]; e->ncaps = e->cap_i = 0; for (i = 1; i < n && e->ncaps < 4096; i++) e->sendcaps[e->ncaps++] = atol(tok[i]);
-		} else if (!strcmp(tok[0], "POLL")) { eps[cur_ep].poll_mode = !strcmp(tok[1], "ready") ? P_READY : !strcmp(tok[1], "notready") ? P_NOTREADY : !strcmp(tok[1], "hup") ? P_HUP : !strcmp(tok[1], "noout") ? P_NOOUT : P_ERR;
-		} else if (!strcmp(tok[0], "PEERCLOSE")) { eps[cur_ep].peer_closed = 1;
-		} else if (!strcmp(tok[0], "PEERRESET")) { eps[cur_ep].peer_reset = 1;
-		} else if (!strcmp(tok[0], "TICK")) { vclock += atol(tok[1]);
-		} else if (!strcmp(tok[0], "CONNECT")) { eps[cur_ep].connect_mode = !strcmp(tok[1], "ok") ? 1 : !strcmp(tok[1], "refused") ? 2 : 0;
-		} else if (!strcmp(tok[0], "GAI")) { eps[cur_ep].gai_fail = !strcmp(tok[1], "fail");
-		} else if (!strcmp(tok[0], "EP")) { cur_ep = atoi(tok[1]) % NEP;
+		} else if (env_cmd(tok, n)) {
 		} else if (!strcmp(tok[0], "TNEW")) {
 			int rc; free_all(); reset_net(); KSI_CTX_new(&ctx);
 			rc = KSI_TcpAsyncClient_new(ctx, &tc);
